@@ -806,7 +806,15 @@ def generate(unit, template_path, canary=False, extra_fns=()):
                 # signature over the arm's bound variables (the signature is template text; the block is /repo text)
                 arm_rx, arm_sig = spec["arm"]
                 fmask = src.mask[bo:bc + 1]
-                hits = list(re.finditer(arm_rx, fmask))
+                hits = []
+                for h in re.finditer(arm_rx, fmask):
+                    # keep only real arm patterns: after the pattern (and its `{...}` if the regex ends in `{`) comes `=>`
+                    e = h.end()
+                    if fmask[e - 1] == "{":
+                        e = match_brace(fmask, e - 1) + 1
+                    rest = fmask[e:e + 200].lstrip()
+                    if rest.startswith("=>") or rest.startswith("|") or re.match(r"if\b", rest):
+                        hits.append(h)
                 if len(hits) != 1:
                     raise AnchorLost(f"{spec['file']}::{spec['name']}: arm pattern `{arm_rx}` matched {len(hits)}x")
                 k = hits[0].end()
@@ -864,6 +872,8 @@ def generate(unit, template_path, canary=False, extra_fns=()):
             for rule, frm, to, optional in spec.get("rewrites_re", []):
                 new_body, cnt = re.subn(frm, to, body)
                 if cnt == 0 and optional:
+                    if any(t in rule for t in ("R10", "R11")):
+                        g.rewrites.append({"rule": rule, "where": where, "before": "/" + frm + "/", "after": to, "count": 0, "missed": True})
                     continue
                 if cnt == 0:
                     raise AnchorLost(f"{where}: rewrite-re {rule} pattern not found: `{frm}`")
@@ -874,7 +884,9 @@ def generate(unit, template_path, canary=False, extra_fns=()):
                 cl = find_closures(mask_rust(body))
                 for c in sorted(spec["closures"], key=lambda c: -c["n"]):
                     if c["n"] >= len(cl):
-                        raise AnchorLost(f"{where}: closure #{c['n']} not found (body has {len(cl)})")
+                        # soft: an annotation that cannot be placed is skipped (the closure then has no ensures)
+                        g.rewrites.append({"rule": "R3+R10", "where": where, "before": f"closure #{c['n']}", "after": "(not found)", "missed": True})
+                        continue
                     a, pe, bs, be = cl[c["n"]]
                     expr = body[bs:be]
                     new = f"|{c['params']}| -> (rr: {c['ret']})"
@@ -884,15 +896,24 @@ def generate(unit, template_path, canary=False, extra_fns=()):
                     g.rewrites.append({"rule": "R3+R10", "where": where, "before": body[a:be], "after": new})
                     body = body[:a] + new + body[be:]
             for pos, anchor, text in spec["inserts"]:
-                if pos == "after-call":
+                if pos in ("after-call", "before-call"):
                     # anchor = `<callee>#<k>`: after the statement containing the k-th call of <callee> (robust against
                     # changes of the arguments and of formatting)
                     callee, _, kth = anchor.partition("#")
                     bm = mask_rust(body)
-                    calls = [m for m in re.finditer(r"\b" + re.escape(callee) + r"\s*\(", bm)]
+                    crx = callee[1:] if callee.startswith("~") else re.escape(callee)    # `~` = regex for the callee name
+                    calls = [m for m in re.finditer(r"\b(?:" + crx + r")\s*\(", bm)]
                     kth = int(kth or 0)
                     if kth >= len(calls):
                         g.rewrites.append({"rule": "R10", "where": where, "before": anchor, "after": f"{pos}: {text}", "missed": True, "count": len(calls)})
+                        continue
+                    if pos == "before-call":
+                        # start of the statement containing the call: after the previous `;`, `{` or `}` at this point
+                        st = calls[kth].start()
+                        while st > 0 and bm[st - 1] not in ";{}":
+                            st -= 1
+                        g.rewrites.append({"rule": "R10", "where": where, "before": anchor, "after": f"{pos}: {text}"})
+                        body = body[:st] + " " + text + " " + body[st:]
                         continue
                     close = match_brace(bm, calls[kth].end() - 1)
                     semi = bm.find(";", close)
@@ -993,7 +1014,10 @@ def generate(unit, template_path, canary=False, extra_fns=()):
                 n = counters.get("loop_" + c["kind"], 0)
                 counters["loop_" + c["kind"]] = n + 1
                 clause_ids.append({"id": f"{unit}::{spec['as'] or spec['name']}::loop{c['loop']}_{c['kind']}#{n}", "kind": "loop_" + c["kind"], "text": c["text"], "gen_line": None})
+            hint_lost = [r for r in g.rewrites if r.get("where") == where and r.get("missed")
+                         and any(t in r.get("rule", "") for t in ("R10", "R11"))]
             g.functions.append({
+                "hint_lost": [f"{r['rule']}: {str(r.get('before'))[:80]}" for r in hint_lost],
                 "name": spec["as"] or spec["name"], "impl": spec["impl"], "file": spec["file"],
                 "repo_line": line_of(src.text, s0), "repo_end_line": line_of(src.text, bc),
                 "props": spec["props"], "gen_start": fstart, "gen_end": len(g.lines),
